@@ -690,8 +690,9 @@ example : ((exA "aaa").replace "aa".toList (.astr (exA "b")) (-1) 7).s = "ba".to
 example : ((exA "aaa").replace "a".toList (.str "b-".toList) 2 7).s = "b-b-a".toList := by decide
 example : ((exA "ab").replace [] (.astr (exA "x")) (-1) 7).s = "xaxbx".toList := by decide
 /-- `NoEsc raw` is needed: a `str` replacement containing an SGR sequence is parsed (the sequence
-    leaves the text) while the loop still advances by `len(new)` -/
-example : ((exA "aba").replace "a".toList (.str "\x1b[4mX".toList) (-1) 7).s = "Xba".toList ∧
+    leaves the text; every match is still replaced — the loop advances by the length of what was
+    inserted, after the repair of the library) -/
+example : ((exA "aba").replace "a".toList (.str "\x1b[4mX".toList) (-1) 7).s = "XbX".toList ∧
     PySpec.replace "aba".toList "a".toList "\x1b[4mX".toList (-1) = "\x1b[4mXb\x1b[4mX".toList := by
   decide +kernel
 example : ReplOk (.str "b-".toList) ∧ ReplOk (.astr (exA "x")) :=
